@@ -1,4 +1,287 @@
-import SafeC.Models.Copy
-/-! Property theorems for C14 (see DESIGN.md §4). -/
+import SafeC.Proofs.Tok
+/-!
+# C14 — tokenizing yields each token exactly once and stays inside the string
+
+Setting: everything mapped and readable (`AllRd`, the access pattern is C01/C02), the cells of the
+remaining string extent `[p, p+n)` writable, the delimiter string has 1..`STRTOK_DELIM_MAX_LEN`
+characters (`DelimOK`; the empty and the over-long delimiter string are known findings
+`tok-empty-delim-no-token`, `tok-delim-too-long`), and the string is terminated inside the remaining
+length (`scanLen m p n < n`).
+
+`tok_call` describes ONE call completely, as a function of the memory contents: where the token
+starts (`skipD`: after the maximal run of delimiters), where it ends (`findE`: at the next delimiter
+or the terminator), what is returned, what is stored through `ptr` / `dmaxp`, and the single cell that
+may be overwritten.  The property-level statements are corollaries:
+
+* `tok_conserves`   — `*ptr + *dmaxp` after the call = before the call: the remaining length shrinks
+  exactly as the pointer advances, so it never permits access past the original `dmax`;
+* `tok_token_shape` — the returned token is a maximal delimiter-free run, NUL-terminated inside the
+  buffer after the call;
+* `tok_only_delim_overwritten` — at most one cell changes, it held a delimiter, it now holds NUL;
+* `tok_null_forever` — once the continuation pointer rests on the terminator every later call
+  (any number of them, any valid delimiter strings) returns NULL and changes nothing;
+* `strtok_s_first` / `strtok_s_next` / `wcstok_s_first` — the entry points reduce to `tok_call`.
+
+(The continuation pointer is stored on every return since the `fix:` commit 5d3329f; before it
+`tok_null_forever` was false of the code: the last token was returned twice.)
+-/
 namespace SafeC.Props.C14
+open SafeC Gen
+
+/-- the NUL bound moves along any run of non-NUL cells -/
+theorem scanLen_adv (m : Nat → Nat) (p n q : Nat) (hz : scanLen m p n < n)
+    (hq : p ≤ q) (hnz : ∀ j, p ≤ j → j < q → m j ≠ 0) (hqn : q ≤ p + n) :
+    scanLen m q (n - (q - p)) < n - (q - p) := by
+  induction n generalizing p with
+  | zero => omega
+  | succ n ih =>
+    by_cases hpq : q = p
+    · subst hpq; simpa using hz
+    · have h0 : m p ≠ 0 := hnz p (by omega) (by omega)
+      have hz' := scanLen_tail m p n hz h0
+      have := ih (p+1) hz' (by omega) (fun j h1 h2 => hnz j (by omega) h2) (by omega)
+      have e : n + 1 - (q - p) = n - (q - (p+1)) := by omega
+      rw [e]; exact this
+
+/-- what one call returns and stores, as a pure function of the memory contents -/
+structure CallSpec where
+  ret : Nat            -- returned pointer, 0 = NULL
+  ptr : Nat            -- value stored through `ptr`
+  rem : Nat            -- value stored through `dmaxp`
+  cut : Option Nat     -- the cell overwritten with NUL, if any
+  deriving Repr, DecidableEq
+
+def callSpec (m : Nat → Nat) (dl p n : Nat) : CallSpec :=
+  let a := skipD m dl n p
+  if m a = 0 then { ret := 0, ptr := a, rem := n - (a - p), cut := none }
+  else
+    let n' := n - (a - p) - 1
+    let b := findE m dl n' (a+1)
+    if m b = 0 then { ret := a, ptr := b, rem := n' - (b - (a+1)), cut := none }
+    else { ret := a, ptr := b+1, rem := n' - (b - (a+1)) - 1, cut := some b }
+
+/-- **One call**, both tokenizers (`wide` = `wcstok_s`): result and final state. -/
+theorem tok_call (wide : Bool) (dl p n : Nat) (st : St) (hall : AllRd st) (hd : DelimOK st.data dl)
+    (hp : p ≠ 0) (hz : scanLen st.data p n < n) (hw : ∀ a, p ≤ a → a < p + n → st.wr a = true) :
+    exec (tokBody wide dl p n) st =
+      .ok ({ ret := (callSpec st.data dl p n).ret, dmaxv := some (callSpec st.data dl p n).rem,
+             ptrv := some (callSpec st.data dl p n).ptr },
+           match (callSpec st.data dl p n).cut with
+           | none => st
+           | some b => st.upd b 0) := by
+  unfold tokBody callSpec
+  simp only [exec_bind, scan1_eq hall wide dl n p hd hz]
+  have hb := skipD_bounds st.data dl n p
+  have hstop := skipD_stop st.data dl n p hz
+  by_cases h0 : st.data (skipD st.data dl n p) = 0
+  · simp [h0]
+  · simp only [h0, if_false]
+    -- a NUL inside the remaining length behind the first token character
+    have hnz : ∀ j, p ≤ j → j < skipD st.data dl n p + 1 → st.data j ≠ 0 := by
+      intro j h1 h2
+      by_cases hj : j = skipD st.data dl n p
+      · subst hj; exact h0
+      · exact (skipD_skipped st.data dl n p j h1 (by omega)).1
+    have hz2 := scanLen_adv st.data p n (skipD st.data dl n p + 1) hz (by omega) hnz (by omega)
+    have e : n - (skipD st.data dl n p + 1 - p) = n - (skipD st.data dl n p - p) - 1 := by omega
+    rw [e] at hz2
+    have hp0 : ¬ skipD st.data dl n p = 0 := by omega
+    · simp only [hp0, if_false]
+      rw [scan2_eq hall dl _ _ _ hd hz2 (fun a h1 h2 => hw a (by omega) (by omega))]
+      by_cases hb0 : st.data (findE st.data dl (n - (skipD st.data dl n p - p) - 1) (skipD st.data dl n p + 1)) = 0
+      · simp [hb0]
+      · simp [hb0]
+
+/-- the facts about the two scan positions everything below uses -/
+theorem callSpec_facts (m : Nat → Nat) (dl p n : Nat) (hz : scanLen m p n < n) :
+    let a := skipD m dl n p
+    p ≤ a ∧ a < p + n ∧
+    (m a ≠ 0 →
+      let n' := n - (a - p) - 1
+      let b := findE m dl n' (a+1)
+      a + 1 ≤ b ∧ b < a + 1 + n' ∧ (m b = 0 ∨ isDelim m dl (m b) = true)) := by
+  intro a
+  have hb := skipD_bounds m dl n p
+  have hstop := skipD_stop m dl n p hz
+  refine ⟨hb.1, hstop.1, ?_⟩
+  intro h0 n' b
+  have hnz : ∀ j, p ≤ j → j < a + 1 → m j ≠ 0 := by
+    intro j h1 h2
+    by_cases hj : j = a
+    · subst hj; exact h0
+    · exact (skipD_skipped m dl n p j h1 (by omega)).1
+  have hz2 := scanLen_adv m p n (a + 1) hz (by omega) hnz (by omega)
+  have e : n - (a + 1 - p) = n' := by omega
+  rw [e] at hz2
+  have hfb := findE_bounds m dl n' (a+1)
+  have hfs := findE_stop m dl n' (a+1) hz2
+  exact ⟨hfb.1, hfs.1, hfs.2⟩
+
+/-- **the remaining length shrinks exactly as the pointer advances**: what is handed back through
+`ptr` and `dmaxp` always satisfies `*ptr + *dmaxp = p + n` — the end of the original extent. A later
+call can therefore never be allowed to look past the original `dmax`. -/
+theorem tok_conserves (m : Nat → Nat) (dl p n : Nat) (hz : scanLen m p n < n) :
+    (callSpec m dl p n).ptr + (callSpec m dl p n).rem = p + n := by
+  obtain ⟨h1, h2, h3⟩ := callSpec_facts m dl p n hz
+  unfold callSpec
+  by_cases h0 : m (skipD m dl n p) = 0
+  · simp only [h0, if_true]; omega
+  · obtain ⟨h4, h5, _⟩ := h3 h0
+    simp only [h0, if_false]
+    split <;> simp only [] <;> omega
+
+/-- **shape of the returned token**: it starts right after a (possibly empty) run of delimiters
+beginning at the continuation point, consists of non-NUL non-delimiters only, ends — strictly inside
+the extent — at a NUL or a delimiter, and after the call the cell at its end holds NUL. -/
+theorem tok_token_shape (wide : Bool) (dl p n : Nat) (st : St) (hall : AllRd st) (hd : DelimOK st.data dl)
+    (hp : p ≠ 0) (hz : scanLen st.data p n < n) (hw : ∀ a, p ≤ a → a < p + n → st.wr a = true)
+    (hret : (callSpec st.data dl p n).ret ≠ 0) :
+    ∃ o st' e, exec (tokBody wide dl p n) st = .ok (o, st') ∧
+      o.ret = skipD st.data dl n p ∧ p ≤ o.ret ∧ o.ret < e ∧ e < p + n ∧
+      (∀ j, p ≤ j → j < o.ret → isDelim st.data dl (st.data j) = true) ∧
+      (∀ j, o.ret ≤ j → j < e → st.data j ≠ 0 ∧ isDelim st.data dl (st.data j) = false ∧ st'.data j = st.data j) ∧
+      (st.data e = 0 ∨ isDelim st.data dl (st.data e) = true) ∧
+      st'.data e = 0 := by
+  obtain ⟨h1, h2, h3⟩ := callSpec_facts st.data dl p n hz
+  have hcall := tok_call wide dl p n st hall hd hp hz hw
+  have h0 : st.data (skipD st.data dl n p) ≠ 0 := by
+    intro h; apply hret; unfold callSpec; simp [h]
+  obtain ⟨h4, h5, h6⟩ := h3 h0
+  have hcs : (callSpec st.data dl p n).ret = skipD st.data dl n p := by unfold callSpec; simp only [h0, if_false]; split <;> rfl
+  refine ⟨_, _, findE st.data dl (n - (skipD st.data dl n p - p) - 1) (skipD st.data dl n p + 1), hcall, hcs, ?_, ?_, ?_, ?_, ?_, h6, ?_⟩
+  · show (callSpec st.data dl p n).ret ≥ p; rw [hcs]; exact h1
+  · show (callSpec st.data dl p n).ret < _; rw [hcs]; omega
+  · omega
+  · intro j hj1 hj2
+    have hj2' : j < skipD st.data dl n p := by
+      have : (callSpec st.data dl p n).ret = skipD st.data dl n p := hcs
+      simpa [this] using hj2
+    exact (skipD_skipped st.data dl n p j hj1 hj2').2
+  · intro j hj1 hj2
+    have hj1' : skipD st.data dl n p ≤ j := by
+      have : (callSpec st.data dl p n).ret = skipD st.data dl n p := hcs
+      simpa [this] using hj1
+    have hin : st.data j ≠ 0 ∧ isDelim st.data dl (st.data j) = false := by
+      by_cases hj : j = skipD st.data dl n p
+      · subst hj
+        refine ⟨h0, ?_⟩
+        rcases (skipD_stop st.data dl n p hz).2 with h | h
+        · exact absurd h h0
+        · exact h
+      · exact findE_inside st.data dl _ _ j (by omega) hj2
+    refine ⟨hin.1, hin.2, ?_⟩
+    unfold callSpec
+    simp only [h0, if_false]
+    by_cases hb0 : st.data (findE st.data dl (n - (skipD st.data dl n p - p) - 1) (skipD st.data dl n p + 1)) = 0
+    · simp only [hb0, if_true]
+    · simp only [hb0, if_false]; exact St.upd_data_ne _ _ _ _ (by omega)
+  · unfold callSpec
+    simp only [h0, if_false]
+    by_cases hb0 : st.data (findE st.data dl (n - (skipD st.data dl n p - p) - 1) (skipD st.data dl n p + 1)) = 0
+    · simp only [hb0, if_true]
+    · simp only [hb0, if_false]; simp
+
+/-- **only a delimiter position is overwritten**: the call changes at most one cell; that cell lies
+inside the extent, held a (non-NUL) delimiter, and now holds NUL. Everything else is untouched. -/
+theorem tok_only_delim_overwritten (m : Nat → Nat) (dl p n b : Nat) (hz : scanLen m p n < n)
+    (hc : (callSpec m dl p n).cut = some b) :
+    p ≤ b ∧ b < p + n ∧ m b ≠ 0 ∧ isDelim m dl (m b) = true := by
+  obtain ⟨h1, h2, h3⟩ := callSpec_facts m dl p n hz
+  unfold callSpec at hc
+  by_cases h0 : m (skipD m dl n p) = 0
+  · simp [h0] at hc
+  · obtain ⟨h4, h5, h6⟩ := h3 h0
+    simp only [h0, if_false] at hc
+    split at hc
+    · simp at hc
+    · rename_i hb0
+      simp only [Option.some.injEq] at hc
+      subst hc
+      refine ⟨by omega, by omega, hb0, ?_⟩
+      rcases h6 with h | h
+      · exact absurd h hb0
+      · exact h
+
+/-- a call whose continuation point rests on the terminator finds nothing and changes nothing -/
+theorem tok_at_nul (wide : Bool) (dl p n : Nat) (st : St) (hall : AllRd st) (hd : DelimOK st.data dl)
+    (_hp : p ≠ 0) (hn : 0 < n) (h0 : st.data p = 0) :
+    exec (tokBody wide dl p n) st = .ok ({ ret := 0, dmaxv := some n, ptrv := some p }, st) := by
+  have hz : scanLen st.data p n < n := by
+    cases n with
+    | zero => omega
+    | succ k => simp [scanLen, h0]
+  -- no cell is written on this path: the writability hypothesis of `tok_call` is not needed
+  unfold tokBody
+  simp only [exec_bind, scan1_eq hall wide dl n p hd hz]
+  have ha : skipD st.data dl n p = p := by
+    cases n with
+    | zero => rfl
+    | succ k => simp [skipD, h0]
+  simp [ha, h0]
+
+/-- `k` further calls, each with its own delimiter string, threading `*ptr` and `*dmaxp` as the
+caller does; returns the list of returned pointers -/
+def moreCalls (wide : Bool) : List Nat → Nat → Nat → Prog (List Nat)
+  | [], _, _ => pure []
+  | dl :: rest, p, n => do
+    let o ← tokBody wide dl p n
+    let rs ← moreCalls wide rest (o.ptrv.getD p) (o.dmaxv.getD n)
+    pure (o.ret :: rs)
+
+/-- **then a null pointer forever**: once the continuation pointer rests on the terminator, every
+further call — any number, any valid delimiter strings — returns NULL and leaves memory as it is. -/
+theorem tok_null_forever (wide : Bool) (dls : List Nat) (p n : Nat) (st : St) (hall : AllRd st)
+    (hd : ∀ dl ∈ dls, DelimOK st.data dl) (hp : p ≠ 0) (hn : 0 < n) (h0 : st.data p = 0) :
+    exec (moreCalls wide dls p n) st = .ok (dls.map (fun _ => 0), st) := by
+  induction dls with
+  | nil => rfl
+  | cons dl rest ih =>
+    simp only [moreCalls, exec_bind, tok_at_nul wide dl p n st hall (hd dl (by simp)) hp hn h0]
+    simp only [Option.getD_some]
+    rw [ih (fun d hd' => hd d (by simp [hd']))]
+    simp
+
+/-! ## the entry points -/
+
+/-- first call (`dest` given), object size unknown -/
+theorem strtok_s_first (dest dmax dl pv : Nat) (hd : dest ≠ 0) (hdl : dl ≠ 0) (hpos : 0 < dmax)
+    (hle : dmax ≤ RSIZE_MAX_STR) :
+    strtok_s dest (some dmax) dl (some pv) none = tokBody false dl dest dmax := by
+  unfold strtok_s
+  have h1 : ¬ dmax = 0 := by omega
+  have h2 : ¬ dmax > RSIZE_MAX_STR := by omega
+  simp [h1, h2, hd, hdl]
+
+/-- continuation call (`dest == NULL`): resumes at `*ptr` with the remaining length `*dmaxp` -/
+theorem strtok_s_next (rem dl pv : Nat) (db : Bos) (hpv : pv ≠ 0) (hdl : dl ≠ 0) (hpos : 0 < rem)
+    (hle : rem ≤ RSIZE_MAX_STR) :
+    strtok_s 0 (some rem) dl (some pv) db = tokBody false dl pv rem := by
+  unfold strtok_s
+  have h1 : ¬ rem = 0 := by omega
+  have h2 : ¬ rem > RSIZE_MAX_STR := by omega
+  simp [h1, h2, hpv, hdl]
+
+theorem wcstok_s_first (dest dmax dl pv : Nat) (hd : dest ≠ 0) (hdl : dl ≠ 0) (hpos : 0 < dmax)
+    (hle : dmax ≤ RSIZE_MAX_WSTR) :
+    wcstok_s dest (some dmax) dl (some pv) none = tokBody true dl dest dmax := by
+  unfold wcstok_s
+  have h1 : ¬ dmax = 0 := by omega
+  have h2 : ¬ dmax > RSIZE_MAX_WSTR := by omega
+  simp [h1, h2, hd, hdl]
+
+theorem wcstok_s_next (rem dl pv : Nat) (db : Bos) (hpv : pv ≠ 0) (hdl : dl ≠ 0) (hpos : 0 < rem)
+    (hle : rem ≤ RSIZE_MAX_WSTR) :
+    wcstok_s 0 (some rem) dl (some pv) db = tokBody true dl pv rem := by
+  unfold wcstok_s
+  have h1 : ¬ rem = 0 := by omega
+  have h2 : ¬ rem > RSIZE_MAX_WSTR := by omega
+  simp [h1, h2, hpv, hdl]
+
+/-- non-vacuity: the string "a,b" at 100 with dmax 4, delimiter string "," at 200 -/
+def exMem : Nat → Nat := fun a =>
+  if a = 100 then 97 else if a = 101 then 44 else if a = 102 then 98 else if a = 200 then 44 else 0
+
+example : DelimOK exMem 200 ∧ scanLen exMem 100 4 < 4 ∧ callSpec exMem 200 100 4 = { ret := 100, ptr := 102, rem := 2, cut := some 101 } :=
+  ⟨by unfold DelimOK; decide, by decide, by decide⟩
+
 end SafeC.Props.C14
